@@ -167,6 +167,11 @@ func main() {
 			if v, ok := res.Obs["verdict"].(string); ok {
 				run.Hist("parse:" + v)
 			}
+			if tl, ok := res.Obs["text_classes"].([]interface{}); ok {
+				for _, k := range tl {
+					run.Hist(fmt.Sprintf("parse-error-text-class:%d", int(k.(float64))))
+				}
+			}
 			if syn {
 				run.Hist("syntax:ok")
 			} else {
